@@ -110,6 +110,18 @@ func nativeReplay(repoDir, harnessDir string, cases []replayCase, dropFiles map[
 	}
 	os.WriteFile(regPath, registry, 0o644)
 	files[filepath.Join(repoDir, "zz_verif_registry.go")] = regPath
+	// interposition by source rewriting (DESIGN.md 3.5): regenerated from the
+	// current sources for every replay
+	for _, fn := range []string{"stack.go", "reftable.go"} {
+		src, err := os.ReadFile(filepath.Join(repoDir, fn))
+		if err != nil {
+			continue
+		}
+		out := rewriteFS(string(src))
+		p := filepath.Join(tmp, "rewritten_"+fn)
+		os.WriteFile(p, []byte(out), 0o644)
+		files[filepath.Join(repoDir, fn)] = p
+	}
 	files[filepath.Join(repoDir, "zz_verif_replay_test.go")] = filepath.Join(harnessDir, "replay_test.go.in")
 	ov := map[string]map[string]string{"Replace": files}
 	ovPath := filepath.Join(tmp, "overlay.json")
@@ -181,6 +193,33 @@ func nativeReplay(repoDir, harnessDir string, cases []replayCase, dropFiles map[
 		start = next
 	}
 	return results, lastLog, nil
+}
+
+var fsRewrites = []struct{ re, to string }{
+	{`\bos\.OpenFile\(`, "verifOpenFile("},
+	{`\bos\.Open\(`, "verifOpen("},
+	{`\bos\.Rename\(`, "verifRename("},
+	{`\bos\.Remove\(`, "verifRemove("},
+	{`\bioutil\.ReadFile\(`, "verifReadFile("},
+	{`\bioutil\.TempFile\(`, "verifTempFile("},
+	{`\bioutil\.ReadDir\(`, "verifReadDir("},
+	{`\*os\.File\b`, "*verifFile"},
+}
+
+// rewriteFS redirects the package-level filesystem calls and *os.File of a
+// source file to the verif* wrappers of harness/verif_sched.go.  Replacements
+// stay on their lines, so positions in panics and traces are unchanged.
+func rewriteFS(src string) string {
+	for _, r := range fsRewrites {
+		src = regexp.MustCompile(r.re).ReplaceAllString(src, r.to)
+	}
+	if strings.Contains(src, `"io/ioutil"`) {
+		src += "\nvar _ = ioutil.Discard\n"
+	}
+	if regexp.MustCompile(`(?m)^\s*"os"$`).MatchString(src) {
+		src += "\nvar _ = os.ErrInvalid\n"
+	}
+	return src
 }
 
 func tail(s string, n int) string {
